@@ -384,6 +384,17 @@ func TestGenSym(t *testing.T) {
 		emit(symCfg{kk: true, minI: 2, maxI: 2, minR: 2, maxR: 2, pwI: base, pwR: base, expI: true, expR: true,
 			payload: []byte("macaroon-secret"), impostor: true}, "kk-impostor")
 	}
+	// (2c) pass phrases of other lengths than the 14 bytes of a pairing phrase (the API takes any byte string):
+	// differing only in the tail, or only by a trailing zero byte
+	for _, L := range []int{10, 15, 32} {
+		long := r.sub(4400 + L).bytes(L)
+		tail := append([]byte{}, long...)
+		tail[L-1] ^= 0x40
+		emit(symCfg{minI: 0, maxI: 2, minR: 0, maxR: 2, pwI: long, pwR: tail, payload: []byte("macaroon-secret")}, "pw-tail")
+		emit(symCfg{minI: 0, maxI: 2, minR: 0, maxR: 2, pwI: long, pwR: append(append([]byte{}, long...), 0), payload: []byte("macaroon-secret")}, "pw-tail")
+		emit(symCfg{minI: 0, maxI: 2, minR: 0, maxR: 2, pwI: append(append([]byte{}, long...), 0), pwR: long, payload: []byte("macaroon-secret")}, "pw-tail")
+		emit(symCfg{minI: 0, maxI: 2, minR: 0, maxR: 2, pwI: long, pwR: long, expI: true, expR: true, payload: []byte("macaroon-secret")}, "pw-length")
+	}
 	// (3) payload sizes incl. the version-0 limit and large ones
 	sizes := []int{0, 1, 497, 498, 499, 600, 65535, 65536, 70000}
 	if thorough() {
